@@ -195,7 +195,9 @@ def run_case(c, R):
                         sub = np.asarray(vv)[a * cfg['nchan']:(a + 1) * cfg['nchan']]
                         re = sub[:, 2 * p::2 * cfg['npol']]
                         im = sub[:, 2 * p + 1::2 * cfg['npol']]
-                        tol = 1e-9 * max(1.0, float(np.max(np.abs(X))))
+                        # ... plus the rounding of the FIR + DFT sums themselves, which scales with the INPUT (a large DC level is
+                        # suppressed in these channels by cancellation, its rounding error is not): 16 eps max|x| sum|h|
+                        tol = 1e-9 * max(1.0, float(np.max(np.abs(X)))) + 16 * np.finfo(float).eps * float(np.max(np.abs(stream))) * float(np.sum(np.abs(window)))
                         if re.shape != X.T.shape or np.max(np.abs(re - X.real.T)) > tol or np.max(np.abs(im - X.imag.T)) > tol:
                             okall = False
                 R.check(okall, 'collect-direct-unquantised-values' + (':block-after-uncached-filterbank-call' if bi_ else ''))
